@@ -7,8 +7,8 @@
    Parser half (proofs/ParserLinesProof.v): the line recorded for a data row = the line counter at
    the row = header line + Eol tokens consumed; combined with the lexer half: C19_row_line.
    Property theorems only; proofs in proofs/LexerProof.v, ExpandProof.v, IterLogProof.v. *)
-From DTR Require Import Prelude I64 Ast FramedMap Lexer Parser Bind Eval Stmt Iter ExpandSpec.
-From DTR.proofs Require Import LexerProof ParserProof ParserLinesProof ExpandProof IterLogProof.
+From DTR Require Import Prelude I64 Ast FramedMap Lexer Parser Bind Eval Stmt Iter ExpandSpec Dig.
+From DTR.proofs Require Import LexerProof ParserProof ParserLinesProof ExpandProof IterLogProof DigLinesProof.
 Local Open Scope N_scope.
 
 (* the number of Eol tokens before any token = the number of newlines before it in the text *)
@@ -57,9 +57,22 @@ Theorem C19_row_line_ordered :
 Proof. exact C19_row_line_ordered. Qed.
 
 
+(* "for tests loaded from a .dig file the count is relative to the start of that test's own source text": load_test(n) is the
+   n-th test's source parsed and bound, binding keeps the statements, so every row's line is 1 + the newlines before the row
+   IN THAT SOURCE *)
+Theorem C19_lines_of_a_loaded_test_are_relative_to_its_own_source :
+  forall (f : dig_file) (n : nat) (tc : testcase),
+  load_test f n = Ok tc ->
+  exists (nm : name) (src : text), nth_error (df_tests f) n = Some (nm, src) /  Forall (fun line : N =>
+            exists u v : list N, src = u ++ v /\ line = N.of_nat (1 + count_nl u) /\ row_starts_here v)
+         (row_lines (tc_stmts tc)).
+Proof. exact load_test_row_lines. Qed.
+
+
 Check C19_row_line.
 Check C19_eol_tokens_are_newlines.
 Print Assumptions C19_eol_tokens_are_newlines.
 Print Assumptions C19_header_lines.
 Print Assumptions C19_row_line.
 Print Assumptions C19_row_line_ordered.
+Print Assumptions C19_lines_of_a_loaded_test_are_relative_to_its_own_source.
